@@ -429,3 +429,47 @@ def rf73(run):
                       'tied to the bstart/bend bracket of the inlined body (no flag forcing non_top_alloca_p before it is consulted): the '
                       'memory is never released and an inlined call in a loop grows the stack on every iteration', line=blk[0]['l'])
     return 1
+
+
+# ---------------------------------------------------------------------------------------------
+# RF83: the extension of a narrow result sits in front of the common ret for every ret
+# ---------------------------------------------------------------------------------------------
+
+def rf83(run):
+    from rf_proto import dominating_conditions
+    rule = 'RF83'
+    run.rule(rule, 'make_one_ret: the instruction that extends a narrow (i8 … u32) result is inserted in front of the final ret, where all '
+                   'merged rets arrive, whenever the result type needs one: the insertion depends on the result type only (ext_code / '
+                   'res_types), not on whether the function had several rets (ret_label) - an extension applied on the path of one ret '
+                   'leaves the values of the other rets unextended')
+    tu = run.tu('mir')
+    f = tu.func('make_one_ret')
+    run.functions_analysed.add(('mir', f.name))
+    cfg = f.cfg
+    ins = []
+    for x in f.walk():
+        if x['k'] == 'CallExpr' and x.get('callee') == 'MIR_insert_insn_before' and len(F.call_args(x)) == 4 and F.src(F.strip(F.call_args(x)[2])) == 'last_ret_insn':
+            a = F.strip(F.call_args(x)[3])
+            txt = F.src(a)
+            newi = [y for y in F.walk(a) if y['k'] == 'CallExpr' and y.get('callee') == 'MIR_new_insn']
+            if not newi and a['k'] == 'DeclRefExpr':
+                newi = [F.strip(z['c'][1]) for z in f.walk() if z['k'] == 'BinaryOperator' and z['op'] == '=' and F.src(F.strip(z['c'][0])) == a['n']
+                        and F.strip(z['c'][1])['k'] == 'CallExpr' and F.strip(z['c'][1]).get('callee') == 'MIR_new_insn' and z['l'] <= x['l']]
+            if any(F.src(F.strip(F.call_args(y)[1])) == 'ext_code' for y in newi):
+                ins.append(x)
+    if not ins:
+        raise F.AnalysisBroken('make_one_ret: insertion of the extension in front of the last ret not found')
+    n = 0
+    for x in ins:
+        conds = dominating_conditions(cfg, cfg.block_of(x), selective=True)
+        # `if (VARR_LENGTH (ret_insns) == 0) return;` - a function without any ret has nothing to extend
+        foreign = [c for c, t in conds if not ('ext_code' in c or 'res_types' in c or 'nres' in c
+                                               or ('ret_insns' in c and c.replace(' ', '').rstrip(')').endswith('==0') and not t))]
+        n += 1
+        ok = not foreign
+        run.ob(rule, (x['l'],), ok, {'site': '%s:%d' % (f.relfile(), x['l']), 'conditions': [c for c, t in conds]})
+        if not ok:
+            run.violation(rule, f, 'conditional result extension', 'the extension in front of the common ret is inserted only when %s: for the '
+                          'other case the values merged from the rets reach the ret unextended (a function with two rets and an i8 result '
+                          'returns 301 instead of 45)' % ' and '.join(foreign), line=x['l'])
+    return n
